@@ -250,13 +250,17 @@ def enumeration_rule(ctx, rid):
             rr.ok("set(ignore_dims) only on the not-a-str branch: a string names one dimension")
         else:
             rr.bad(ctx.finding(rid, f, sc, "`set(ignore_dims)` is applied without first excluding str: ignore_dims='time' becomes {'t','i','m','e'}, the dimension is not ignored and partially filled cells are reported missing", construct="ignore-dims-str"), "ignore_dims str")
-    fa = single_def(f, "fn_args", g)
+    from ..pathcond import canon
+    rets_ = [r_ for r_ in walk_shallow(f.node) if isinstance(r_, ast.Return) and isinstance(r_.value, ast.Tuple) and len(r_.value.elts) == 2 and isinstance(r_.value.elts[0], ast.Name)]
+    need(len(rets_) == 1, "idiom changed: find_missing_cases does not return (names, cases)")
+    FN = rets_[0].value.elts[0].id
+    fa = single_def(f, FN, g)
     def _dims_filter(e):
         if isinstance(e, ast.Call) and isinstance(e.func, ast.Name) and e.func.id == "tuple" and len(e.args) == 1 and isinstance(e.args[0], (ast.GeneratorExp, ast.ListComp)):
             ge = e.args[0]
             if len(ge.generators) == 1 and isinstance(ge.generators[0].target, ast.Name) and norm(ge.generators[0].iter) == "ds.dims":
                 v = ge.generators[0].target.id
-                return norm(ge.elt) == v and [norm(c) for c in ge.generators[0].ifs] == ["%s not in ignore_dims" % v]
+                return norm(ge.elt) == v and [norm(c) for c in ge.generators[0].ifs] == ["%s not in %s" % (v, f.positional[1] if len(f.positional) > 1 else "ignore_dims")]
         return False
     if fa and _dims_filter(fa[1]):
         rr.ok("fn_args = ds.dims minus ignore_dims, in dataset order")
@@ -264,16 +268,25 @@ def enumeration_rule(ctx, rid):
         rr.bad(ctx.finding(rid, f, fa[1], "the searched dimensions are re-ordered (`%s`): locations are not reported in grid order" % norm(fa[1]), construct="fn_args-order"), "fn_args")
     else:
         raise AnalysisError("idiom changed: fn_args in find_missing_cases: %s" % (norm(fa[1]) if fa else None))
-    ac = single_def(f, "all_cases", g)
-    if ac and isinstance(ac[1], ast.Call) and callee_name(ctx, f, ac[1]) == "itertools.product" and "for arg in fn_args" in norm(ac[1]):
+    gens_ = [h for h in f.nested.values() if any(isinstance(x, (ast.Yield, ast.YieldFrom)) for x in ast.walk(h.node))]
+    need(len(gens_) == 1, "idiom changed: gen_missing_list closure")
+    gen = gens_[0]
+    ctx.touch(gen)
+    gg = build_cfg(gen.node)
+    loops_ = [n for n in gg.nodes if n.kind == "for"]
+    need(len(loops_) == 1, "idiom changed: gen_missing_list loop / test / yield")
+    it_ = loops_[0].ast.iter
+    if isinstance(it_, ast.Call) and it_.args and not isinstance(it_.args[0], ast.Starred) and norm(it_.func) != "itertools.product":
+        it_ = it_.args[0]          # progress-bar wrapper
+    need(isinstance(it_, ast.Name), "idiom changed: the locations iterated by gen_missing_list (`%s`)" % norm(it_))
+    ALL = it_.id
+    ac = single_def(f, ALL, g)
+    pats_ = {canon(ast.parse(t % FN, mode="eval").body) for t in ("itertools.product(*(ds[a].data for a in %s))", "itertools.product(*[ds[a].data for a in %s])", "itertools.product(*(ds[a].values for a in %s))", "itertools.product(*[ds[a].values for a in %s])")}
+    if ac and isinstance(ac[1], ast.Call) and callee_name(ctx, f, ac[1]) == "itertools.product" and canon(ac[1]) in pats_:
         rr.ok("all locations = product of the coordinates of fn_args, in order")
     else:
         raise AnalysisError("idiom changed: all_cases in find_missing_cases")
-    gen = f.nested.get("gen_missing_list")
-    need(gen is not None, "idiom changed: gen_missing_list closure")
-    ctx.touch(gen)
-    gg = build_cfg(gen.node)
-    heads = [n for n in gg.nodes if n.kind == "for" and "all_cases" in norm(n.ast.iter)]
+    heads = [n for n in gg.nodes if n.kind == "for" and ALL in norm(n.ast.iter)]
     tests = [n for n in gg.nodes if n.kind == "test" and "is_case_missing(" in norm(n.ast)]
     ylds = [n for n in gg.nodes if n.kind == "stmt" and isinstance(n.ast, ast.Expr) and isinstance(n.ast.value, ast.Yield)]
     need(len(heads) == 1 and tests and ylds, "idiom changed: gen_missing_list loop / test / yield")
@@ -284,7 +297,16 @@ def enumeration_rule(ctx, rid):
                not any(y.id in (gg.reachable(start=b, blocked_nodes=[H.id]) | {b}) for b, l in gg.succ[T.id] if l == "f") for y in ylds)
     yval = all(isinstance(H.ast.target, ast.Name) and norm(y.ast.value.value) == H.ast.target.id for y in ylds)
     twice = any(y2.id in set().union(*[gg.reachable(start=b, blocked_nodes=[H.id]) for b, l in gg.succ[y.id] if b != H.id] or [set()]) for y in ylds for y2 in ylds)
-    zipok = any(norm(n.ast) == "setting = dict(zip(fn_args, %s))" % norm(H.ast.target) for n in gg.nodes if n.kind == "stmt")
+    tcall = [c_ for c_ in ast.walk(T.ast) if isinstance(c_, ast.Call) and norm(c_.func) == "is_case_missing"]
+    need(tcall and len(tcall[0].args) >= 2, "idiom changed: the missing test in gen_missing_list")
+    loc_ = tcall[0].args[1]
+    if isinstance(loc_, ast.Name):
+        dl_ = single_def(gen, loc_.id, gg)
+        need(dl_ is not None, "idiom changed: the tested location `%s`" % loc_.id)
+        loc_ = dl_[1]
+    zipok = norm(loc_) == "dict(zip(%s, %s))" % (FN, norm(H.ast.target))
+    if not zipok and not (isinstance(loc_, ast.Call) and norm(loc_.func) == "dict" and loc_.args and isinstance(loc_.args[0], ast.Call) and norm(loc_.args[0].func) == "zip"):
+        raise AnalysisError("idiom changed: the tested location `%s`" % norm(loc_)[:60])
     if skip:
         rr.bad(ctx.finding(rid, gen, T.ast, "an iteration over the locations can avoid the missing test: such locations are never reported", construct="filter-skips-test"), "filter tests all")
     elif not ypos or not yval or twice:
